@@ -1,5 +1,5 @@
 (* C16: thresholds. *)
-Require Import QArith Qabs Qminmax Lia.
+Require Import QArith Qabs Qminmax Lia Lqa.
 Require Import Coq.Sorting.Permutation.
 Require Import MV.Base.Prelude MV.Base.QHelp MV.Gen.PyThresh_gen MV.Model.Labeled MV.Model.Threshold MV.Proof.LabeledProof.
 
@@ -22,33 +22,12 @@ Theorem soft_threshold_shrinks f t : (0 <= t)%Q ->
   ((t < f)%Q -> (soft_threshold_px f t == f - t)%Q) /\
   ((f < - t)%Q -> (soft_threshold_px f t == f + t)%Q).
 Proof.
-  intros Ht. unfold soft_threshold_px. split; [|split]; intros H.
-  - assert (qltb t (Qabs f) = false) as -> by (now apply qltb_false).
-    assert (E : (f * 0 == 0)%Q) by ring.
-    assert (qltb t (f * 0) = false) as -> by (apply qltb_false; rewrite E; exact Ht).
-    assert (E2 : (f * 0 - t * 0 == 0)%Q) by ring.
-    assert (qltb (f * 0 - t * 0) (- t) = false) as ->.
-    { apply qltb_false. rewrite E2. apply (Qopp_le_compat 0 t) in Ht. exact Ht. }
-    ring.
-  - assert (A : (t < Qabs f)%Q) by (eapply Qlt_le_trans; [exact H|apply Qle_Qabs]).
-    apply qltb_spec in A. rewrite A.
-    assert (E : (f * 1 == f)%Q) by ring.
-    assert (qltb t (f * 1) = true) as -> by (apply qltb_spec; rewrite E; exact H).
-    assert (qltb (f * 1 - t * 1) (- t) = false) as ->.
-    { apply qltb_false. assert (E3 : (f * 1 - t * 1 == f - t)%Q) by ring. rewrite E3.
-      apply Qle_trans with 0%Q; [apply (Qopp_le_compat 0 t); exact Ht|].
-      apply Qlt_le_weak. unfold Qminus. rewrite <- (Qplus_opp_r t). apply Qplus_lt_l. exact H. }
-    ring.
-  - assert (Hn : (f < 0)%Q) by (eapply Qlt_le_trans; [exact H|apply (Qopp_le_compat 0 t); exact Ht]).
-    assert (A : (t < Qabs f)%Q).
-    { rewrite Qabs_neg by (now apply Qlt_le_weak). apply Qopp_lt_compat in H. rewrite Qopp_involutive in H. exact H. }
-    apply qltb_spec in A. rewrite A.
-    assert (E : (f * 1 == f)%Q) by ring.
-    assert (qltb t (f * 1) = false) as ->.
-    { apply qltb_false. rewrite E. apply Qle_trans with 0%Q; [now apply Qlt_le_weak|exact Ht]. }
-    assert (qltb (f * 1 - t * 0) (- t) = true) as ->.
-    { apply qltb_spec. assert (E3 : (f * 1 - t * 0 == f)%Q) by ring. rewrite E3. exact H. }
-    ring.
+  intros Ht. unfold soft_threshold_px. cbv zeta.
+  destruct (qltb t f) eqn:A; [apply qltb_spec in A | apply qltb_false in A];
+  (destruct (qltb f (inject_Z 0)) eqn:B; [apply qltb_spec in B | apply qltb_false in B]);
+  (destruct (qltb (Qplus f t) (inject_Z 0)) eqn:C; [apply qltb_spec in C | apply qltb_false in C]);
+  cbn [andb]; change (inject_Z 0) with 0%Q in *;
+  (split; [|split]; intros H; try (apply Qabs_Qle_condition in H; destruct H as [H1 H2]); lra).
 Qed.
 
 (* ---------- otsu_spec returns the FIRST maximiser of the between-class variance ---------- *)
